@@ -69,6 +69,9 @@ Explained(e) ==
                             /\ e.r1 = e.r2 /\ e.r2 = e.r3 /\ e.r1 = e.d
                             /\ e.a1 = e.ad
                             /\ IF e.nnon = 0 THEN e.r1 = PlusZeroBits ELSE e.ri = e.val /\ e.val # 0
+    \* thread shortage (the address space of a child process limited so that worker threads cannot be created): the call may
+    \* fail (panic: no value) - but a value that IS returned equals the sequential product bit for bit (exact integer data)
+    [] e.op = "pardot_s" -> ~e.returned \/ e.equal_bits
     [] OTHER -> FALSE
 
 Init == l = 1 /\ TLCSet(1, 0)
